@@ -77,6 +77,20 @@ func famRedef(r *rng) []string {
 		res = append(res, mk, fmt.Sprintf("c1 = mk(%d)", n), "println("+get("c1")+")", "println("+get("c1")+")",
 			fmt.Sprintf("c2 = mk(%d)", n), "println("+get("c2")+")", "println("+get("c1")+")")
 	}
+	if r.intn(3) == 0 { // an error caught inside a function (a value, so cacheable by type) that is due to the bindings of the moment
+		cf := pickS(r,
+			"cf = func(){ c = catch(yq); if c.err { -1 } else { c.value } }", // (the wording of an error is no observation)
+			"cf = func(){ catch(yq + 1).err }",
+			"cf = func(n){ catch(yq(n)).err }",
+			"cf = func(){ c = catch(yq[0]); [c.err, 1] }",
+			"func cf(){ if catch(yq).err { \"undefined\" } else { \"defined\" } }")
+		call := "cf()"
+		if strings.Contains(cf, "func(n)") {
+			call = "cf(3)"
+		}
+		res = append(res, cf, "println("+call+")", "println("+call+")",
+			pickS(r, "yq = 1", "yq = func(n){ n * 2 }", "yq = [7, 8]"), "println("+call+")", "del(yq)", "println("+call+")")
+	}
 	if r.intn(4) == 0 { // a function drawing into an image (extension state) twice with the same arguments
 		res = append(res, `image.new("a", 8, 8)`,
 			`tri = func(x, c){ image.move_to("a", x, 1.); image.line_to("a", x + 4., 1.); image.line_to("a", x, 5.); image.close_path("a"); image.draw("a", c) }`,
@@ -121,5 +135,30 @@ func famRegs2(r *rng) []string {
 		p+"++; "+p+" := "+val)
 	res = append(res, "func fa("+p+", z){ "+asg+"; println("+p+"); ["+p+", z] }", "println(fa(3, 4))", "println(fa(3, 4))", "println(fa(\"x\", 4))")
 	res = append(res, "for "+p+" = 2 { "+asg+"; println("+p+") }", "println("+p+")")
+	// 3. a loop register written to an OUTER variable from inside a function as the first use of that name in the call
+	// (the value stored must be the integer of that moment, not the live register), then loops that reuse the slot
+	res = append(res, "idx = -1", "find = func(a, x){ for i = len(a) { if a[i] == x { idx = i } } }", // the loop goes on after the write
+		"find([5, 7, 9, 11], 7)", "println(idx)",
+		"hit = -1", "scan = func(a, x){ for i = len(a) { if a[i] == x { hit = i; break } }; t = 0; for j = 100 { t = t + j }; t }", // the slot is reused
+		"println(scan([5, 7, 9, 11], 9), hit)",
+		"last = func(a){ for k = len(a) { seen = k }; 0 }; seen = -1; last([1, 2, 3]); for m = 50 { m }; println(seen)")
 	return res
+}
+
+// C05/C10: a Go-level panic (the depth guard) unwinding through counted loops whose variables live in registers, in a
+// session that carries on: the loop's clean-up runs while the innermost call's scope is still current
+func famRegsPanic(r *rng) []string {
+	v := pickS(r, "i", "n", "k")
+	at := r.intn(4)
+	rec := pickS(r, "func rr(n){ rr(n+1) }", "func rr(){ rr() }", "rr = func(n){ 1 + rr(n+1) }")
+	call := "rr(0)"
+	if rec == "func rr(){ rr() }" {
+		call = "rr()"
+	}
+	loop := "for " + v + " = 5 { if " + v + " == " + fmt.Sprint(at) + " { " + call + " } }"
+	if r.intn(2) == 0 {
+		loop = "for o = 2 { " + loop + " }"
+	}
+	return []string{rec, loop, "println(\"" + v + " is\", " + v + ")", "for " + v + " = 3 { print(" + v + ") }; println()",
+		"func w(" + v + "){ for q = 2 { " + call + " }; " + v + " }", "w(4)", "println(w(1) == 1)", "for a = 2 { for b = 2 { for c = 2 { print(a, b, c) } } }; println()"}
 }
